@@ -21,6 +21,8 @@ class ScriptSource:
     def __init__(self, script):
         self.script = list(script)
         self.n = 0
+        self.drain_cap = 6000 if any("num=1" in x and len(x.split("num=")[1].split()[0]) >= 3 for x in script
+                                     if isinstance(x, str) and "num=" in x) else 400
 
     def next(self, run):
         while self.script:
@@ -39,7 +41,7 @@ class ScriptSource:
                 if at_user:
                     return "go"
                 refs = run.ready_refs()
-                if not refs or self.n > 400:
+                if not refs or self.n > self.drain_cap:
                     self.script.pop(0)
                     self.n = 0
                     continue
@@ -132,8 +134,28 @@ SCENARIOS = [
   "raising workers and callbacks; flush with and without return_exceptions; close"),
 ]
 
+CFGI = dict(size="inf", kind="task", bad="0", w="sp", ecb="n", ccb="n")
+SCENARIOS += [
+ ("bulk_flush_over_100_tasks", "common", CFGI,
+  [AP.format(n=130, w="rp", e="n", c="n"), "drain", "driver k=flush1", "drain",
+   "cancel ids=129", "cancel ids=100", "cancel ids=0", AP.format(n=101, w="rp", e="s0", c="n"), "drain",
+   "driver k=flush0", "drain", "cancel ids=230", "cancel ids=131", "driver k=gac0", "drain"],
+  "more than 100 finished tasks remembered when flush() takes its snapshot (twice: 130 and 101), "
+  "then every id must be forgotten; close"),
+ ("bulk_gather_and_close_over_128_tasks", "common", CFGI,
+  [AP.format(n=135, w="sp", e="a10", c="n"), "drain", "driver k=gac1", "step", "driver k=until", "step"]
+  + [x for t in (0, 7, 64, 127, 128, 134) for x in (f"finish tid={t} how=r", "drain")]
+  + [x for t in (0, 7, 64, 127, 128, 134) for x in (f"relcb tid={t}", "drain")]
+  + ["cancelall", "drain"]
+  + [x for t in range(135) if t not in (0, 7, 64, 127, 128, 134) for x in (f"relcb tid={t}",)] + ["drain"],
+  "gather_and_close() over more than 128 tasks while tasks change registry (finish, slow end "
+  "callbacks, cancel_all) during its wait"),
+]
+
 if __name__ == "__main__":
     for name, pid, cfg, script, note in SCENARIOS:
+        if len(sys.argv) > 1 and sys.argv[1] == "--only-bulk" and not name.startswith("bulk_"):
+            continue
         lines = build(name, pid, cfg, script, note)
         print(name, len(lines))
         if len(sys.argv) > 1 and sys.argv[1] == name:
